@@ -10,7 +10,7 @@ A node argument is "3" (the id), "o3" (the network's Node object) or "f3" (a fre
 `d` = 1: the session's output_dict is passed. Cases without "ops" query every ordered pair with `shortest_path`
 (s-major) on the same object; "seq": "euler" = a sequence of `shortest_path` calls in which every ordered pair of
 queries occurs consecutively."""
-import itertools
+import itertools, os, tempfile
 from fractions import Fraction
 from engine import Prop, fbits, bitsf
 from props import netcommon as nc
@@ -111,7 +111,7 @@ def ops_of(case):
 
 def eff_order(case):
     """node insertion order of the network as built (the nodes are created by addEdge in the lazy mode)"""
-    if case.get("build") != "lazy":
+    if case.get("build") not in ("lazy", "reader"):
         return list(case["order"])
     out = []
     for (_, s, t, _, _) in nc.expand(case):
@@ -126,15 +126,33 @@ def build_net(mods, case):
     ids:   "int" node ids 0..n-1, edge ids as given | "str" node ids 'A','B',… (same order), edge ids 'e<id>'
     build: "plain" every node added first (in `order`), the same Node objects given to addEdge |
            "fresh" as plain, but addEdge is given fresh Node objects with the same ids (what NetworkReader does) |
-           "lazy"  nodes are created by addEdge, the isolated ones are added afterwards
+           "lazy"  nodes are created by addEdge, the isolated ones are added afterwards |
+           "reader" the edges are written to a CSV file (WKT geometries, str ids, weight and direction columns) and read by
+                   NetworkReader.readFromFile (which computes abs_curv on every geometry: an analytical feature); the isolated
+                   nodes are added afterwards. Needs >= 2 vertices per edge and polylines joining the node positions.
     af:    every edge geometry with at least one vertex carries an analytical feature"""
     Network, Node, Edge, Track, Obs, ENUCoords, ObsTime = mods
-    strids = case.get("ids", "int") == "str"
+    build = case.get("build", "plain")
+    strids = case.get("ids", "int") == "str" or build == "reader"
     nid = (lambda v: chr(65 + v)) if strids else (lambda v: v)
     eid = (lambda i: "e%d" % i) if strids else (lambda i: i)
-    build = case.get("build", "plain")
     pos = case["pos"]
     mk = lambda v: Node(nid(v), ENUCoords(pos[v][0], pos[v][1], 0))
+    if build == "reader":
+        from tracklib.io import NetworkReader, NetworkFormat
+        fmt = NetworkFormat({"name": "c07", "pos_edge_id": 0, "pos_source": 1, "pos_target": 2, "pos_wkt": 3, "pos_weight": 4,
+                             "pos_direction": 5, "separator": ";", "header": 1, "srid": "ENU"})
+        with tempfile.TemporaryDirectory() as tmp:
+            path = os.path.join(tmp, "network.csv")
+            with open(path, "w") as fh:
+                fh.write("edge;source;target;wkt;weight;direction\n")
+                for k, (i, s, t, w, o) in enumerate(nc.expand(case)):
+                    fh.write("%s;%s;%s;LINESTRING(%s);%r;%d\n" % (eid(i), nid(s), nid(t), ", ".join("%r %r" % (float(x), float(y)) for x, y in case["lines"][k]),
+                                                               float(nc.pynum(w)), o))
+            net = NetworkReader.readFromFile(path, fmt, verbose=False)
+        for v in case["order"]:
+            net.addNode(mk(v))
+        return net, nid, eid, mk
     net = Network()
     nodes = {}
     if build != "lazy":
@@ -306,7 +324,7 @@ class P(Prop):
     rule = ("the C06 graph space (all edge lists of length <= 2 on <= 3 nodes in quick, + all 3-edge multisets in thorough; random to 12 nodes / 40 edges, parallel edges of equal and of "
             "different weight) with node positions on an integer lattice (some coincident) and edge polylines of 1-5 vertices from the source's to the target's position (straight, bent, repeated "
             "consecutive vertices, coming back over an end point, over another node, closed loops); a 'loose' stream whose polylines ignore the node positions (0-4 vertices; geometry compared "
-            "with the model only). Networks built with int or str ids, with the caller's Node objects / fresh Node objects per edge (as NetworkReader) / nodes created by addEdge; edge geometries "
+            "with the model only). Networks built with int or str ids, with the caller's Node objects / fresh Node objects per edge / nodes created by addEdge / through a CSV file read by NetworkReader.readFromFile (str ids, abs_curv feature on every geometry); edge geometries "
             "with or without an analytical feature; in a third of the random cases the caller moves the points of every track it is given (aliasing with the network would show in later answers). Calls: every ordered pair by shortest_path on ONE object; for the same enumerated graphs a sequence in which every ordered pair "
             "of queries is consecutive; random sessions mixing shortest_path, shortest_distance (pair / list), run_routing_forward, run_routing_backward (several targets after one search, before "
             "any search), nodes by id / own object / fresh object, output_dict, source = target, unreachable after reachable, cut-offs below / at / above the distances. A float stream (kind sess-float): weights = polyline lengths / multiples of 0.1 / uniform reals, model instantiated at Float and compared bit for bit, "
@@ -315,6 +333,11 @@ class P(Prop):
 
     def setup(self):
         self.mods = nc.import_mods()
+        # a pool worker inherits the parent's list of generated cases (millions of small objects in the thorough tier): a
+        # full garbage collection that happens to start inside `time_limit` then costs seconds of CPU and looks like an
+        # endless loop. The inherited objects are never garbage: keep the collector off them.
+        import gc
+        gc.freeze()
 
     # ---------------------------------------------------------------- generators
     def exhaustive_scopes(self, tier):
@@ -338,6 +361,8 @@ class P(Prop):
                 g["build"] = "fresh"
             elif r < 0.45:
                 g["build"] = "lazy"
+            elif r < 0.6 and not loose and all(len(l) >= 2 for l in lines):
+                g["build"] = "reader"
             if rng.random() < 0.2:
                 g["af"] = 1
             if rng.random() < 0.3:
@@ -482,7 +507,7 @@ class P(Prop):
         Network, Node, Edge, Track, Obs, ENUCoords, ObsTime = self.mods
         ops = ops_of(case)
         out = []
-        with nc.time_limit(3 if n <= 4 and len(ops) <= 20 else 20):
+        with nc.time_limit(5 if n <= 4 and len(ops) <= 20 else 20):
             net, nid, eid, mk = build_net(self.mods, case)
             inv = {nid(v): v for v in range(n)}
             einv = {eid(e[0]): e[0] for e in nc.expand(case)}
@@ -544,7 +569,7 @@ class P(Prop):
                 ops.append("%s:%s:%s:%s:%d" % (o[0], a(o[1]), a(o[2]), ct(o[3]), 1 if o[4] else 0))
         etok = nc.edges_token(edges) if not fl else (";".join("%d,%d,%d,%s,%d" % (i, u, v, fbits(w), o) for (i, u, v, w, o) in edges) or "_")
         return ["C07.%ssession %d %s %s %s %s %d %s" % ("f" if fl else "", case["n"], ",".join(str(v) for v in eff_order(case)), etok, pos, lines,
-                                                       1 if case.get("af") else 0, ";".join(ops) if ops else "_")]
+                                                       1 if (case.get("af") or case.get("build") == "reader") else 0, ";".join(ops) if ops else "_")]
 
     def decode(self, case, replies):
         r = replies[0]
